@@ -490,6 +490,8 @@ class Fn:
                 continue
             if isinstance(s, ast.If):
                 c, tc = self.expr(s.test, env, ind)
+                if self.conditional_assignment(s, self.as_prop(c, tc, s), env, ind):
+                    continue
                 self.emit(ind, f"if {self.as_prop(c, tc, s)} then")
                 env_a, term_a = self.block(s.body, env, ind + 1)
                 term_b, env_b = False, env
@@ -526,6 +528,35 @@ class Fn:
         if not emitted:
             self.emit(ind, "pure ()")
         return env, False
+
+    def conditional_assignment(self, s, cond, env, ind):
+        """Normalisation N1:  `if c: x = e`  (no else, one assignment to already declared variables, `e` cannot raise)
+        is emitted as  `x := if c then e else x`  — the same state transformer, but a straight-line term instead of a
+        join point, which keeps the tie proofs of long `if` chains (get_sqrt_ratio_at_tick) linear."""
+        if s.orelse or len(s.body) != 1 or not isinstance(s.body[0], ast.Assign) or len(s.body[0].targets) != 1:
+            return False
+        tg = s.body[0].targets[0]
+        names = [e for e in (tg.elts if isinstance(tg, ast.Tuple) else [tg])]
+        if not all(isinstance(e, ast.Name) and e.id in env for e in names):
+            return False
+        mark, ntmp = len(self.lines), self.ntmp
+        a, ta = self.expr(s.body[0].value, env, ind)
+        if len(self.lines) != mark:          # the right-hand side can raise: keep the statement form
+            del self.lines[mark:]
+            self.ntmp = ntmp
+            return False
+        if ta == "prop": a, ta = self.as_bool(a, ta, s), "bool"
+        want = env[names[0].id] if not isinstance(tg, ast.Tuple) else ("tuple", [env[e.id] for e in names])
+        if ta != want:
+            fail(s, f"conditional assignment changes the type of {[e.id for e in names]}")
+        for e in names:
+            self.reassigned.add(e.id)
+        if isinstance(tg, ast.Tuple):
+            pat = "(" + ", ".join(e.id for e in names) + ")"
+            self.emit(ind, f"{pat} := (if {cond} then {a} else {pat})")
+        else:
+            self.emit(ind, f"{names[0].id} := (if {cond} then {a} else {names[0].id})")
+        return True
 
     def set_ret(self, ty, node):
         if ty == "dec0":
